@@ -11,6 +11,7 @@ pub mod c06b;
 pub mod c12k;
 pub mod c12s;
 pub mod c17s;
+pub mod c17t;
 pub mod c19;
 pub mod enc;
 pub mod gad;
@@ -38,6 +39,7 @@ fn main() {
             "C05" => c05::replay(&ctx, &sub, &case),
             "C06" => c06::replay(&ctx, &sub, &case),
             "C19" => c19::replay(&ctx, &sub, &case),
+            "C12" | "C17" if sub.ends_with("core_take_layouts") => c17t::replay(&ctx, &sub, &case),
             "C12" if sub.starts_with("core_wrapped") => c12w::replay(&ctx, &sub, &case),
             "C12" if sub.starts_with("core_keygen") => c12k::replay(&ctx, &sub, &case),
             "C10" | "C11" | "C12" => c12s::replay(&ctx, &sub, &case),
@@ -96,7 +98,8 @@ fn main() {
             c12s::run_all(&ctx);
             c12k::run_all(&ctx);
             c12w::run_all(&ctx);
-            ctx.finish(&format!("{} || {} || {}", c12s::RULE, c12k::RULE, c12w::RULE), &["scheme-level part of C12/C11 (the HAL-level part is served by pzv-hal); keys are produced with roomy scratch, only the call under audit gets the exact window"], &[("dsize>2", 100), ("cross_radix", 500)])
+            c17t::run_all(&ctx, "");
+            ctx.finish(&format!("{} || {} || {} || {}", c12s::RULE, c12k::RULE, c12w::RULE, c17t::RULE), &["scheme-level part of C12/C11 (the HAL-level part is served by pzv-hal); keys are produced with roomy scratch, only the call under audit gets the exact window"], &[("dsize>2", 100), ("cross_radix", 500)])
         }
         "C19" => {
             c19::run_all(&ctx);
